@@ -122,7 +122,17 @@ def r1_candidate_order(ctx):
         facts = graph.guard_facts(dom, rn)
         v = rn.ast.value
         vname = v.id if isinstance(v, ast.Name) else None
-        valid = any(fa.polarity is True and _is_call_to(fa.expr, '_isvalid') and fa.expr.args and is_name(fa.expr.args[0], vname) for fa in facts)
+        def is_chain_test(e):
+            if not (isinstance(e, ast.Call) and e.args and is_name(e.args[0], vname)):
+                return False
+            if _callee(e) == '_isvalid':
+                return True
+            r = ctx.res.resolve_call(f, e)
+            if r[0] == 'repo' and len(r[1]) == 1:
+                body = ast.unparse(r[1][0].node)
+                return '__init__.py' in body and 'dirname' in body and any(isinstance(x, (ast.While, ast.For)) for x in ast.walk(r[1][0].node))
+            return False
+        valid = any(fa.polarity is True and is_chain_test(fa.expr) for fa in facts)
         in_loop = any(fa.polarity == 'iter' for fa in facts)
         isfile_self = any(fa.polarity is True and _is_call_to(fa.expr, 'isfile') and fa.expr.args and is_name(fa.expr.args[0], vname) for fa in facts)
         isfile_init = any(fa.polarity is True and _is_call_to(fa.expr, 'isfile', 'exists') and fa.expr.args and _init_join(fa.expr.args[0]) == vname for fa in facts)
@@ -435,6 +445,11 @@ def r4_name_derivation(ctx):
             steps.append(('splitext', cur.slice.value))
             cur = cur.value.args[0]
             continue
+        if isinstance(cur, ast.Subscript) and isinstance(cur.slice, ast.Constant) and cur.slice.value == 0 and isinstance(cur.value, ast.Call) and isinstance(cur.value.func, ast.Attribute) and \
+                cur.value.func.attr in ('split', 'partition') and cur.value.args and const_str(cur.value.args[0]) == '.':
+            steps.append(('abi-split', None))       # keeps the part before the first dot (drops an abi tag)
+            cur = cur.value.func.value
+            continue
         break
     reps = {s[1]: s[2] for s in steps if s[0] == 'replace'}
     seps_ok = (reps.get('/') == '.' and reps.get('\\') == '.') or (reps.get('os.path.sep') == '.' or reps.get('os.sep') == '.')
@@ -470,12 +485,20 @@ def r5_normalisation(ctx):
     def base_is(e, fname):
         return isinstance(e, ast.Compare) and len(e.ops) == 1 and isinstance(e.ops[0], ast.Eq) and _is_call_to(e.left, 'basename') and const_str(e.comparators[0]) == fname
 
-    stores = [n for n in g.nodes if n.kind == 'stmt' and not n.dup and isinstance(n.ast, ast.Assign) and is_name(n.ast.targets[0], path)]
+    stores = [(n, n.ast.value) for n in g.nodes if n.kind == 'stmt' and not n.dup and isinstance(n.ast, ast.Assign) and is_name(n.ast.targets[0], path)]
+    # a rewritten path may also be returned directly (early return) instead of being stored back first
+    for n in g.nodes:
+        if n.kind == 'stmt' and not n.dup and isinstance(n.ast, ast.Return) and n.ast.value is not None and not is_name(n.ast.value, path):
+            v = n.ast.value
+            if isinstance(v, ast.Name):
+                ds = rd.at(n, v.id)
+                if len(ds) == 1 and ds[0].kind == 'assign' and isinstance(ds[0].value, ast.AST):
+                    v = ds[0].value
+            stores.append((n, v))
     rep.floor('C17.R5', 'rewrites of the path in normalize_modpath', len(stores), 3)
     kinds = set()
-    for s in stores:
+    for (s, v) in stores:
         facts = graph.guard_facts(dom, s)
-        v = s.ast.value
         hi = [fa.polarity for fa in facts if isinstance(fa.expr, ast.Name) and fa.expr.id == 'hide_init']
         hm = [fa.polarity for fa in facts if isinstance(fa.expr, ast.Name) and fa.expr.id == 'hide_main']
         is_init = any(fa.polarity is True and base_is(fa.expr, '__init__.py') for fa in facts)
@@ -492,8 +515,15 @@ def r5_normalisation(ctx):
             for fa in ex:
                 a = fa.expr.args[0] if fa.expr.args else None
                 org = _origins(rd, fa.origin.attrs['test'], a) if a is not None else []
-                if any(_is_call_to(o, 'join') and len(o.args) == 2 and const_str(o.args[1]) == '__init__.py' and _is_call_to(o.args[0], 'dirname') for o in org):
-                    par = True
+                for o in org:
+                    if _is_call_to(o, 'join') and len(o.args) == 2 and const_str(o.args[1]) == '__init__.py':
+                        a0 = o.args[0]
+                        if _is_call_to(a0, 'dirname'):
+                            par = True
+                        elif isinstance(a0, ast.Name):
+                            ds = rd.at(fa.origin.attrs['test'], a0.id)
+                            if ds and all(isinstance(d.value, ast.AST) and _is_call_to(d.value, 'dirname') for d in ds):
+                                par = True
             ok = hm == [True] and par
             rep.ob('C17.R5', ctx.loc(f, s.ast), 'strip __main__.py', ok,
                    'only when hide_main is on, the file is __main__.py and its directory is a package' if ok else
@@ -515,8 +545,9 @@ def r5_normalisation(ctx):
         ok = isinstance(d.value, ast.Constant) and d.value.value is True and any(fa.polarity is True and base_is(fa.expr, '__init__.py') for fa in facts)
         rep.ob('C17.R5', ctx.loc(f, d.node.ast), ctx.src(d.node.ast), ok, 'set only when an __init__.py was stripped' if ok else 'hide_main is overridden outside the documented case', anchor=NORM)
     rets = [n for n in g.nodes if n.kind == 'stmt' and isinstance(n.ast, ast.Return) and not n.dup]
-    ok = all(is_name(r.ast.value, path) for r in rets) and bool(rets)
-    rep.ob('C17.R5', ctx.loc(f, rets[0].ast if rets else f.node), 'returns the rewritten path', ok, '', nontrivial=False, anchor=NORM)
+    classified = [s_ for (s_, _) in stores]
+    ok = all(is_name(r.ast.value, path) or r in classified for r in rets) and bool(rets)
+    rep.ob('C17.R5', ctx.loc(f, rets[0].ast if rets else f.node), 'returns the rewritten path', ok, 'every return is the path variable or one of the classified rewrites', nontrivial=False, anchor=NORM)
 
     # modname_to_modpath
     f2 = ctx.func(N2P)
